@@ -2188,8 +2188,16 @@ static void upipe_h264f_end_annexb(struct upipe *upipe, struct upump **upump_p)
         upipe_h264f_sync_acquired(upipe);
         return;
     }
-    if (upipe_h264f->au_last_nal_offset == -1)
+    if (upipe_h264f->au_last_nal_offset == -1) {
+        if (upipe_h264f->au_size) {
+            /* octets before the first start code of a complete access unit */
+            upipe_warn(upipe, "discarding non-sync data");
+            upipe_h264f_consume_uref_stream(upipe, upipe_h264f->au_size);
+            upipe_h264f_flush_au_attr(upipe);
+            upipe_h264f->au_size = 0;
+        }
         return;
+    }
 
     uint8_t last_nal_type = h264nalst_get_type(upipe_h264f->au_last_nal);
     if (last_nal_type == H264NAL_TYPE_NONIDR ||
@@ -2435,6 +2443,8 @@ static void upipe_h264f_work_annexb(struct upipe *upipe, struct upump **upump_p)
     upipe_h264f_end_annexb(upipe, upump_p);
     upipe_h264f_output_annexb(upipe, upump_p);
     upipe_h264f->au_last_nal_offset = -1;
+    /* the next access unit is scanned on its own */
+    upipe_h264f->scan_context = UINT32_MAX;
 }
 
 /** @internal @This prepares a raw access unit.
